@@ -90,6 +90,8 @@ func runC07(p *load.Program, r *oblig.Report) {
 	c07SingleSender(p, r)
 	c07PutDiscipline(p, r, "C07.R3 batches are enqueued once, while current, under the partition mutex")
 	c07InBatchOrder(p, r)
+	// a produce attempt that outlives its deadline on a stalled connection would be appended behind later batches
+	transportDeadline(p, r, "C07.R5 an abandoned produce attempt cannot be delivered late")
 }
 
 func c07Queue(p *load.Program, r *oblig.Report) {
@@ -542,6 +544,8 @@ func runC08(p *load.Program, r *oblig.Report) {
 	c08Waiter(p, r)
 	c08Limits(p, r)
 	c07PutDiscipline(p, r, "C08.R4 a batch is flushed once: enqueued while current, under the partition mutex")
+	// a closed batch is produced at once: the first attempt is not preceded by the retry back-off (the loop shape of C01.R3)
+	shareRules(r, "C08", "C08.R6 the first produce attempt of a closed batch is not delayed", func(sub *oblig.Report) { c01RetryLoop(p, sub) })
 }
 
 func c08Tables(p *load.Program, r *oblig.Report) {
@@ -1286,7 +1290,7 @@ func c01WaitBeforeRead(p *load.Program, r *oblig.Report) {
 		if !an.Dominates(sel, ld) {
 			// the final loop: must not be reachable without passing the wait loop's exit: the select's block dominates via loop header
 			hdr := loopHeaderOf(sel.Block())
-			if hdr == nil || !hdr.Dominates(ld.Block()) {
+			if hdr == nil || len(hdr.Instrs) == 0 || !(hdr.Dominates(ld.Block()) || an.Dominates(hdr.Instrs[0], ld)) {
 				okLoads = false
 			}
 		}
